@@ -115,9 +115,11 @@ impl PartitionConfirmationState {
                 });
 
         // Update the event's confirmation status
-        event.confirmation_count = confirmation_count;
+        // Reports can arrive out of order and duplicated: a stale, lower count must not undo a
+        // count that already reached quorum
+        event.confirmation_count = event.confirmation_count.max(confirmation_count);
         event.last_attempt = now;
-        event.attempts += 1;
+        event.attempts = event.attempts.saturating_add(1);
 
         // Check if we can advance the watermark
         let required_quorum = (replication_factor / 2) + 1;
